@@ -40,14 +40,14 @@ def plan(tier):
                  # with clock <= 2 no two distinct lattice spikes are coincident (window <= u):
                  # single-spike trains at clock 3-4 give non-zero order / directionality for N=4
                  (4, [("bounded", 1, 3, 4)], MENU_LIST_Q),
-                 (5, [("bounded", 1, 1, 2)], MENU_LIST_Q[:1]), (6, [("bounded", 1, 1, 1)], MENU_LIST_Q[:1])]
+                 (5, [("bounded", 1, 3, 3)], MENU_LIST_Q[:1]), (6, [("bounded", 1, 1, 1)], MENU_LIST_Q[:1])]
     else:
         specs = [(2, [("dense", 1, 6)], MENU_PAIR_T), (2, [("dense", 7, 7), ("bounded", 3, 8, 10)],
                                                        MENU_PAIR_Q + [(None, 12 * U)]),
                  (3, [("dense", 1, 4)], MENU_LIST_T[:3]),
                  (4, [("dense", 1, 2)], MENU_LIST_T[:2]), (4, [("dense", 3, 3)], MENU_LIST_Q[:1]),
                  (4, [("bounded", 1, 3, 6)], MENU_LIST_Q),
-                 (5, [("bounded", 1, 1, 3)], MENU_LIST_Q), (6, [("bounded", 1, 1, 2)], MENU_LIST_Q[:1])]
+                 (5, [("bounded", 1, 1, 4)], MENU_LIST_Q), (6, [("bounded", 1, 1, 3)], MENU_LIST_Q[:1])]
     tasks, descs = [], []
     mixed_ks = (8,) if tier == "quick" else (8, 10)
     for be in ("py", "pyx"):
@@ -246,6 +246,9 @@ def eval_list(r, trains, edges, idx, max_tau, mrts, be, rank=()):
             e_tot += sum(ys)
             m_tot += sum(ms)
     vals_e = [[v / float(n - 1) for v in row] for row in vals]
+    # distinct expected results per regime: a regime in which nothing is ever coincident (all
+    # zero) explores nothing - see per_regime.distinct_outcomes in the evidence
+    r.outcomes.add((n, tuple(tuple(row) for row in D), int(m_tot)))
     # ---- directionality values
     try:
         dv = spk.spike_directionality_values(sts, **kw)
